@@ -153,6 +153,12 @@ def parse_units(src):
             spec, names = low.split('::', 1)
             attrs = [a.strip() for a in split_top(spec)]
             ty = attrs[0].split('(')[0].strip()
+            # declared kind: every real/complex object must be double precision (kind = DP / double precision);
+            # a default-kind `real :: x` stores in single precision, which the real-number model cannot express
+            single = False
+            if ty in ('real', 'complex'):
+                kspec = attrs[0][len(ty):].replace(' ', '')
+                single = kspec not in ('(kind=dp)', '(dp)', '(kind=8)', '(8)')
             intent = None
             dims = None
             isparam = False
@@ -174,7 +180,9 @@ def parse_units(src):
                     nm = mm.group(1)
                     idims = [d.strip() for d in mm.group(2).split(',')]
                 nm = kw(nm)
-                d = {'type': ty, 'intent': intent, 'dims': idims, 'param': val if isparam else None}
+                d = {'type': ty, 'intent': intent, 'dims': idims, 'param': val if isparam else None, 'single': single}
+                if single and cur is None:
+                    raise Untranslatable('module-level object %s declared with default (single) real kind' % nm)
                 if cur is None:
                     if isparam:
                         params[nm] = val
@@ -195,6 +203,24 @@ class ExprConv:
         self.t = toks
         self.i = 0
         self.ctx = ctx      # FConv (knows arrays, loop vars, parameters)
+        self.ty = {}        # converted text -> 'int' | 'sp' (default-real literal) | 'dp'
+
+    def typ(self, txt):
+        return self.ty.get(txt, 'dp')
+
+    def binop(self, a, op, b):
+        """Fortran typing of a binary operation.  The model computes over the reals with every real object double:
+        that is faithful only if no operation is carried out in integer or single-precision arithmetic, so those are
+        refused (the routine then has no generated model and its pair obligation breaks loudly)."""
+        ta, tb = self.typ(a), self.typ(b)
+        r = '(%s %s %s)' % (a, op, b)
+        if ta == 'int' and tb == 'int':
+            if op == '/':
+                raise Untranslatable('integer division %s / %s' % (a, b))
+            self.ty[r] = 'int'
+        elif 'dp' not in (ta, tb):
+            raise Untranslatable('single-precision operation %s %s %s (default-real literals / integers only)' % (a, op, b))
+        return r
 
     def peek(self):
         return self.t[self.i] if self.i < len(self.t) else (None, None)
@@ -247,13 +273,16 @@ class ExprConv:
         if v in ('+', '-'):
             self.eat()
             a = self.mul()
-            a = '(-%s)' % a if v == '-' else a
+            if v == '-':
+                t0 = self.typ(a)
+                a = '(-%s)' % a
+                self.ty[a] = t0
         else:
             a = self.mul()
         while self.peek()[1] in ('+', '-'):
             op = self.eat()[1]
             b = self.mul()
-            a = '(%s %s %s)' % (a, op, b)
+            a = self.binop(a, op, b)
         return a
 
     def mul(self):
@@ -261,7 +290,7 @@ class ExprConv:
         while self.peek()[1] in ('*', '/'):
             op = self.eat()[1]
             b = self.pow_()
-            a = '(%s %s %s)' % (a, op, b)
+            a = self.binop(a, op, b)
         return a
 
     def pow_(self):
@@ -270,19 +299,23 @@ class ExprConv:
             self.eat()
             # exponent: right associative; unary minus allowed inside parentheses only
             b = self.pow_()
-            return '(%s ** %s)' % (a, b)
+            return self.binop(a, '**', b)
         return a
 
     def primary(self):
         k, v = self.peek()
         if k == 'num':
             self.eat()
-            return self.ctx.number(v)
+            r = self.ctx.number(v)
+            self.ty[r] = 'int' if re.fullmatch(r'\d+', r) else ('sp' if r.startswith('f32(') else 'dp')
+            return r
         if v == '(':
             self.eat()
             e = self.expr()
             self.eat(')')
-            return '(%s)' % e
+            r = '(%s)' % e
+            self.ty[r] = self.typ(e)
+            return r
         if v == '[':
             self.eat()
             items = []
@@ -295,7 +328,9 @@ class ExprConv:
         if v in ('+', '-'):
             self.eat()
             p = self.pow_()
-            return '(-%s)' % p if v == '-' else p
+            r = '(-%s)' % p if v == '-' else p
+            self.ty[r] = self.typ(p)
+            return r
         if k == 'name':
             self.eat()
             if self.peek()[1] == '(':
@@ -310,8 +345,12 @@ class ExprConv:
                     if self.peek()[1] == ',':
                         self.eat()
                 self.eat(')')
-                return self.ctx.ref(v, args)
-            return self.ctx.ref(v, None)
+                r = self.ctx.ref(v, args)
+                self.ty[r] = self.ctx.ref_type(v, True)
+                return r
+            r = self.ctx.ref(v, None)
+            self.ty[r] = self.ctx.ref_type(v, False)
+            return r
         raise Untranslatable('fortran primary %r' % (v,))
 
 
@@ -334,6 +373,20 @@ class FConv:
         if '_' in t:
             return t.split('_')[0]
         return 'f32("%s")' % t          # default-real literal
+
+    def ref_type(self, name, call):
+        """'int' for integer objects, loop variables and integer-valued intrinsics, else 'dp'"""
+        n = kw(name.lower())
+        d = self.sub.decl.get(n)
+        if d is not None:
+            return 'int' if d['type'] == 'integer' else 'dp'
+        if n in self.loopvars:
+            return 'int'
+        if call and n in ('int', 'nint', 'floor', 'ceiling', 'size', 'mod'):
+            return 'int'
+        if not call and n in self.mp and re.fullmatch(r'\s*\d+\s*', str(self.mp[n])):
+            return 'int'
+        return 'dp'
 
     def is_array(self, name):
         d = self.sub.decl.get(name)
@@ -403,7 +456,9 @@ class FConv:
             return '%s(%s)' % (INTRINSIC[name], ', '.join(args))
         if name in ('real', 'dble'):
             if args[0].startswith('z_roots['):
-                return 'np.real(%s)' % args[0]
+                return 'np.real(%s)' % args[0]          # real part of a double complex: double
+            if name == 'real' and len(args) == 1:
+                raise Untranslatable('REAL(%s) without a kind converts to single precision' % args[0])
             return args[0]
         raise Untranslatable('reference %s(...)' % name)
 
@@ -417,6 +472,11 @@ class FConv:
     def convert(self):
         sub = self.sub
         ins, outs, dims = self.sigs[sub.name]
+        for nm, d in sub.decl.items():
+            if d.get('single'):
+                raise Untranslatable('%s is declared with the default (single) real kind: stores round to binary32' % nm)
+            if d.get('intent') == 'inout':
+                raise Untranslatable('%s has intent(inout)' % nm)
         lines = ['def %s(%s):' % (sub.name, ', '.join(ins))]
         ind = 1
         # nc := length of first array argument
@@ -522,7 +582,10 @@ class FConv:
                     self.arr2[nm] = (d1, d2)
                     lines.append(pad + '%s = np.array([%s])' % (nm, ', '.join(rows)))
                     continue
-                lines.append(pad + '%s = %s' % (self.lhs(lhs), self.conv_expr(rhs)))
+                rv = self.conv_expr(rhs)
+                if re.fullmatch(r'\w+', rv) and self.is_array(rv):
+                    rv = 'np.copy(%s)' % rv          # Fortran array assignment copies
+                lines.append(pad + '%s = %s' % (self.lhs(lhs), rv))
                 continue
             raise Untranslatable('statement %r' % low)
         lines.append('    return (%s)' % ', '.join(outs) if len(outs) > 1 else '    return %s' % outs[0])
